@@ -250,6 +250,11 @@ pub fn scenarios(thorough: bool) -> Vec<SubsScenario> {
 		SubsScenario { name: String::from("stop-with-call-in-flight-two-conns"), conns: vec![vec![Subscribe(0)], vec![SlowCall]], scripts: vec![vec![Accept, Send, IsClosed, Send, IsClosed]], stop: true, mask: mask_harness_only, buffer: 16, max_subs: 16, max_resp: 0 },
 		// the peer stops reading, a notification larger than the socket buffer stalls the connection's writer, then the server is stopped
 		SubsScenario { name: String::from("stop-with-stalled-writer"), conns: vec![vec![Subscribe(0), StopReading]], scripts: vec![vec![Accept, SendBig, Send, IsClosed, Send, IsClosed]], stop: true, mask: mask_harness_only, buffer: 2, max_subs: 16, max_resp: 0 },
+		// reject / drop the pending sink and return a closing value in the same poll (the closing value must be discarded
+		// although the subscribe call's own task has not run again yet)
+		SubsScenario { name: String::from("reject-and-return-at-once"), conns: vec![vec![Subscribe(0), Call]], scripts: vec![vec![RejectThenReturnErr]], stop: false, mask: mask_sub_points, buffer: 16, max_subs: 16, max_resp: 0 },
+		SubsScenario { name: String::from("drop-pending-and-return-at-once"), conns: vec![vec![Subscribe(0), Call]], scripts: vec![vec![DropPendingThenReturnMsg]], stop: false, mask: mask_sub_points, buffer: 16, max_subs: 16, max_resp: 0 },
+		SubsScenario { name: String::from("reject-and-return-at-once-two-subs"), conns: vec![vec![Subscribe(0), Subscribe(1)]], scripts: vec![vec![RejectThenReturnErr], vec![Accept, Send, ReturnMsg]], stop: false, mask: mask_harness_only, buffer: 16, max_subs: 16, max_resp: 0 },
 		// the low-level assembly (application-made tower service around ws::connect)
 		SubsScenario { name: String::from("low-level:unsubscribe-vs-sends"), conns: vec![vec![Subscribe(0), Unsub(0)]], scripts: vec![vec![Accept, Send, IsClosed, Send, IsClosed, ReturnErr]], stop: false, mask: mask_harness_only, buffer: 16, max_subs: 16, max_resp: 0 },
 		SubsScenario { name: String::from("low-level:stop-vs-sends"), conns: vec![vec![Subscribe(0)]], scripts: vec![vec![Accept, Send, IsClosed, Send, IsClosed, ReturnErr]], stop: true, mask: mask_harness_only, buffer: 16, max_subs: 16, max_resp: 0 },
